@@ -27,6 +27,10 @@ theorem setSat_isDef (x : Node) (s : List Nat) : (setSat x s).isDef = x.isDef :=
   unfold setSat; split
   · rename_i h; simp [Node.isDef, h]
   · rfl
+theorem setSat_defTy (x : Node) (s : List Nat) : (setSat x s).defTy = x.defTy := by
+  unfold setSat; split
+  · rename_i h; simp [Node.defTy, h]
+  · rfl
 theorem setSat_of_not_inst {x : Node} (h : x.isInst = false) (s : List Nat) : setSat x s = x := by
   unfold setSat; split
   · rename_i hk; simp [Node.isInst, hk] at h
